@@ -349,22 +349,23 @@ Proof.
   unfold seek_le, filter_keys. rewrite hd_drop_until, last_rev, <- filter_rev'. reflexivity.
 Qed.
 
-Theorem ldb_seek_spec b (m : store) start end_ rv k pre_ops :
-  not_badger b = true -> sorted m -> positioned (pre_ops ++ [ISeek k]) = true ->
-  List.last (it_run (it_open b m start end_ rv) (pre_ops ++ [ISeek k])) (false, false, [], []) =
+(** ... for any iterator that refines the abstract one *)
+Lemma seek_spec_of_refines (s0 : it_state) (m : store) start end_ rv k pre_ops :
+  map Some (it_run s0 (pre_ops ++ [ISeek k])) =
+    spec_run rv (spec_list m start end_ rv) None (pre_ops ++ [ISeek k]) ->
+  List.last (it_run s0 (pre_ops ++ [ISeek k])) (false, false, [], []) =
   match (if rv then seek_le k (spec_range m start end_) else seek_ge k (spec_range m start end_)) with
   | Some e => (true, true, fst e, snd e)
   | None => (false, false, [], [])
   end.
 Proof.
-  intros B S P.
-  pose proof (ldb_iter_refines b m start end_ rv _ B S P) as H.
+  intro H.
   assert (G : forall os sp, spec_run rv (spec_list m start end_ rv) sp (os ++ [ISeek k]) =
             spec_run rv (spec_list m start end_ rv) sp os ++
             [Some (spec_obs (drop_until (seek_pred rv k) (spec_list m start end_ rv)))]).
   { induction os as [|o os IH]; intro sp; simpl; [reflexivity|]. rewrite IH. reflexivity. }
   rewrite G in H.
-  set (run := it_run (it_open b m start end_ rv) (pre_ops ++ [ISeek k])) in *.
+  set (run := it_run s0 (pre_ops ++ [ISeek k])) in *.
   assert (E : List.last (map Some run) None =
               Some (spec_obs (drop_until (seek_pred rv k) (spec_list m start end_ rv)))).
   { rewrite H. apply last_last. }
@@ -378,6 +379,17 @@ Proof.
   rewrite E'. unfold spec_list. destruct rv.
   - rewrite <- seek_pos_rev. destruct (drop_until _ _); reflexivity.
   - rewrite <- seek_pos_fwd. destruct (drop_until _ _); reflexivity.
+Qed.
+
+Theorem ldb_seek_spec b (m : store) start end_ rv k pre_ops :
+  not_badger b = true -> sorted m -> positioned (pre_ops ++ [ISeek k]) = true ->
+  List.last (it_run (it_open b m start end_ rv) (pre_ops ++ [ISeek k])) (false, false, [], []) =
+  match (if rv then seek_le k (spec_range m start end_) else seek_ge k (spec_range m start end_)) with
+  | Some e => (true, true, fst e, snd e)
+  | None => (false, false, [], [])
+  end.
+Proof.
+  intros B S P. apply seek_spec_of_refines. apply ldb_iter_refines; auto.
 Qed.
 
 (** prefix iteration = the keys that have the prefix (well-formed bytes; the
